@@ -922,7 +922,7 @@ def run(ctx):
     cases += gen_wrap(ctx, 1500 if quick else 25000)
     cases += gen_wrap_nested(ctx, 800 if quick else 12000)
     cases += gen_wrap_alias(ctx, 900 if quick else 20000)
-    cases += gen_typed(ctx, 900 if quick else 25000)
+    cases += gen_typed(ctx, 700 if quick else 25000)
     cases += gen_outside(ctx, 1500 if quick else 30000)
     nested = gen_nested(ctx, 1200 if quick else 12000)
     cases += nested
